@@ -45,12 +45,59 @@ def transition_line(t) -> str:
     return "t " + "|".join([nodes, edges, ";".join(states), ";".join(inters)])
 
 
-def lean_block(canonical: bool, couplings: bool, flags, transitions) -> str:
+def lean_block(canonical: bool, couplings: bool, flags, transitions, dyn=()) -> str:
     p, c, ls = flags
-    lines = [f"config {int(canonical)} {int(couplings)} {int(bool(p))} {int(bool(c))} {int(bool(ls))}"]
+    d = ",".join(f"{hx(n)}={hx(b)}" for n, b in dyn) or "-"
+    lines = [f"config {int(canonical)} {int(couplings)} {int(bool(p))} {int(bool(c))} {int(bool(ls))} {d}"]
     lines += [transition_line(t) for t in transitions]
     lines.append("end")
     return "\n".join(lines) + "\n"
+
+
+# ----------------------------------------------------------------------------- lineshape builders
+
+
+def marker_builder(particle, vs):
+    """An opaque lineshape recording the particle and the complete variable set."""
+    import sympy as sp
+
+    ell = sp.Symbol("None") if vs.angular_momentum is None else sp.Integer(vs.angular_momentum)
+    return sp.Function("Lineshape")(sp.Symbol(particle.name), vs.incoming_state_mass, vs.outgoing_state_mass1,
+                                    vs.outgoing_state_mass2, ell, vs.helicity_phi, vs.helicity_theta), {}
+
+
+def builders():
+    from ampform.dynamics import builder as b
+
+    return {
+        "bw": b.create_relativistic_breit_wigner,
+        "bwff": b.create_relativistic_breit_wigner_with_ff,
+        "ff": b.create_non_dynamic_with_ff,
+        "marker": marker_builder,
+    }
+
+
+def particles_of(reaction) -> dict:
+    return {s.particle.name: s.particle for t in reaction.transitions for s in t.states.values()}
+
+
+def reconstruct_lineshape(dyn_tuple, particles):
+    """Call the library's own builder with the variable set the MODEL predicts."""
+    import sympy as sp
+
+    from ampform.dynamics.builder import TwoBodyKinematicVariableSet
+
+    bid, pname, m_p, m1, m2, ell, phi, theta = dyn_tuple
+    vs = TwoBodyKinematicVariableSet(
+        incoming_state_mass=sp.Symbol(m_p, nonnegative=True),
+        outgoing_state_mass1=sp.Symbol(m1, nonnegative=True),
+        outgoing_state_mass2=sp.Symbol(m2, nonnegative=True),
+        helicity_theta=sp.Symbol(theta, real=True),
+        helicity_phi=sp.Symbol(phi, real=True),
+        angular_momentum=ell,
+    )
+    expr, _ = builders()[bid](particles[pname], vs)
+    return expr
 
 
 # ----------------------------------------------------------------------------- canonical terms
@@ -74,7 +121,30 @@ def parse_model_term(s: str):
         if not g:
             continue
         gs.append(tuple(int(x) for x in g.split(",")))
-    return pre, (params, tuple(sorted(ds)), tuple(sorted(gs)), ())
+    dyn = []
+    for d in fields.get("L", "").split(";"):
+        if not d:
+            continue
+        b, pn, mp_, m1, m2, ell, phi, theta = d.split(",")
+        dyn.append((unhx(b), unhx(pn), unhx(mp_), unhx(m1), unhx(m2), None if ell == "-" else int(ell), unhx(phi),
+                    unhx(theta)))
+    others = ()
+    if dyn:
+        if RECON["particles"] is None:
+            raise ValueError("model term with lineshapes but no reconstruction context")
+        import sympy as sp
+
+        expr = sp.Mul(*[reconstruct_lineshape(d, RECON["particles"]) for d in dyn])
+        c2, (_, ds2, gs2, others) = parse_real_mul(expr)
+        pre = pre * c2
+        ds += list(ds2)
+        gs += list(gs2)
+        RECON["dyn_tuples"].update(dyn)
+    return pre, (params, tuple(sorted(ds)), tuple(sorted(gs)), tuple(others))
+
+
+# context for the reconstruction of lineshape sub-trees from the model's (builder, variable set)
+RECON = {"particles": None, "dyn_tuples": set()}
 
 
 def model_terms(field: str) -> Counter:
@@ -114,10 +184,9 @@ def parse_real_mul(expr):
                 gs.append(tuple(d2(a) for a in base.args))
             else:
                 others.append(sp.srepr(base))
-    if not coeff.is_Integer:
-        others.append(f"coeff:{coeff}")
-        coeff = sp.Integer(1)
-    return int(coeff), (tuple(sorted(params)), tuple(sorted(ds)), tuple(sorted(gs)), tuple(sorted(others)))
+    if coeff.is_Integer:
+        coeff = int(coeff)
+    return coeff, (tuple(sorted(params)), tuple(sorted(ds)), tuple(sorted(gs)), tuple(sorted(others)))
 
 
 def real_terms(expr) -> Counter:
@@ -142,6 +211,8 @@ def _canon_sign(c: Counter):
 def real_incoherent(expr):
     """`Σ_k |X_k|²` -> sorted list of canonical coherent sums; anything else is flagged."""
     import sympy as sp
+    from sympy.physics.quantum.cg import CG
+    from sympy.physics.quantum.spin import WignerD
 
     out = []
     if expr.has(sp.re) or expr.has(sp.im):
@@ -156,16 +227,20 @@ def real_incoherent(expr):
         for f in sp.Mul.make_args(term):
             if f.is_Integer and f > 0:
                 n *= int(f)
-            elif isinstance(f, sp.Pow) and f.exp == 2:
-                inners.append(f.base.args[0] if isinstance(f.base, sp.Abs) else f.base)
+            elif isinstance(f, sp.Pow) and f.exp.is_Integer and f.exp % 2 == 0:
+                b = f.base.args[0] if isinstance(f.base, sp.Abs) else f.base
+                inners.append(b if f.exp == 2 else sp.Pow(b, f.exp // 2))
+            elif not (f.has(WignerD) or f.has(CG)
+                      or any(x.name.startswith(("C_{", "H_{")) for x in f.free_symbols)):
+                inners.append(f)  # remnant of a lineshape that SymPy pulled out of / evaluated in |.|^2
             else:
                 ok = False
         if ok and inners:
-            inner = inners[0] if len(inners) == 1 else sp.expand(sp.Mul(*inners))
-            out += [_canon_sign(real_terms(inner))] * n
+            inner = inners[0] if len(inners) == 1 else sp.expand_mul(sp.Mul(*inners))
+            out += [real_terms(inner)] * n
         else:
-            out.append((("unexpected", sp.srepr(term)[:200]),))
-    return sorted(out, key=str)
+            out.append(Counter({((), (), (), ("unexpected " + sp.srepr(term)[:200],)): 1}))
+    return out
 
 
 def graph_string(g) -> str:
@@ -182,7 +257,7 @@ def graph_string(g) -> str:
 # ----------------------------------------------------------------------------- observation of the real model
 
 
-def observe(reaction, couplings: bool, flags) -> dict:
+def observe(reaction, couplings: bool, flags, dyn=()) -> dict:
     import sympy as sp
 
     from ampform.helicity import _freeze, _perform_combinatorics
@@ -190,6 +265,8 @@ def observe(reaction, couplings: bool, flags) -> dict:
     from tools.corr.C03_lib import make_builder
 
     builder = make_builder(reaction, flags, use_helicity_couplings=couplings)
+    for name, bid in dyn:
+        builder.dynamics.assign(name, builders()[bid])
     model = builder.formulate()
     obs = {"model": model, "builder": builder}
     obs["sym"] = [sorted(graph_string(_freeze(g)) for g in _perform_combinatorics(t)) for t in reaction.transitions]
@@ -230,9 +307,10 @@ def observe(reaction, couplings: bool, flags) -> dict:
     return obs
 
 
-def parse_lean_blocks(out: str) -> list[dict]:
+def parse_lean_blocks(out: str, particles_per_block=None) -> list[dict]:
     blocks = []
     cur = None
+    RECON["particles"] = particles_per_block[0] if particles_per_block else None
 
     def new():
         return {"sym": [], "amp": [], "compA": [], "compI": [], "bases": [], "pools": [], "wf": None, "agree": None}
@@ -251,8 +329,7 @@ def parse_lean_blocks(out: str) -> list[dict]:
         elif tok[0] == "compA":
             cur["compA"].append((unhx(tok[1]), model_terms(tok[2])))
         elif tok[0] == "compI":
-            sums = [_canon_sign(model_terms(x)) for x in tok[2].split("@")]
-            cur["compI"].append((unhx(tok[1]), sorted((x for x in sums if x), key=str)))
+            cur["compI"].append((unhx(tok[1]), [model_terms(x) for x in tok[2].split("@")]))
         elif tok[0] == "grouped":
             cur["grouped"] = tok[1] == "1"
         elif tok[0] == "bases":
@@ -266,6 +343,8 @@ def parse_lean_blocks(out: str) -> list[dict]:
         elif tok[0] == "done":
             blocks.append(cur)
             cur = None
+            if particles_per_block and len(blocks) < len(particles_per_block):
+                RECON["particles"] = particles_per_block[len(blocks)]
         else:
             raise common.LeanRunError(f"unexpected driver output: {line[:200]}")
     return blocks
@@ -321,9 +400,28 @@ def diff(obs, blk):
         if obs["compI"][n] is None:
             obs["unparsed_I"] = obs.get("unparsed_I", 0) + 1
             continue
-        real_i = [x for x in obs["compI"][n] if x]
-        if mi[n] != real_i:
-            return {"what": "component I", "name": n, "real": str(real_i)[:300], "model": str(mi[n])[:300]}
+        has_ls = any(k[3] for c in mi[n] for k in c)
+
+        def canon(counters):
+            # with lineshapes SymPy's Abs re-normalises the lineshape factors (signs, known-positive
+            # symbols pulled out): the I components are then compared modulo the lineshape factors;
+            # amplitudes and A components are compared in full
+            out = []
+            for c in counters:
+                if has_ls:
+                    d = Counter()
+                    for k, v in c.items():
+                        d[(k[0], k[1], k[2], ())] += 1 if has_ls else v
+                    c = d
+                if c:
+                    out.append(_canon_sign(c))
+            return sorted(out, key=str)
+
+        real_i, model_i = canon(obs["compI"][n]), canon(mi[n])
+        if has_ls:
+            obs["I_modulo_lineshapes"] = obs.get("I_modulo_lineshapes", 0) + 1
+        if model_i != real_i:
+            return {"what": "component I", "name": n, "real": str(real_i)[:300], "model": str(model_i)[:300]}
     if not obs["intensity_shape_ok"]:
         return {"what": "intensity is not PoolSum(Abs(sum of indexed amplitudes)**2, pools)"}
     real_bases = [b for b, _ in obs["bases"]]
